@@ -8,6 +8,7 @@ SchedConfigs == {SchedConfig(NP) : NP \in 2..10}
 FreeConfigs == {<<1, 1>>, <<2, 1>>, <<2, 2>>, <<3, 2>>, <<4, 4>>}
 AllConfigs == SchedConfigs \cup FreeConfigs
 SmallConfigs == {c \in AllConfigs : c[1] + c[2] <= 6}
+TinyConfigs == {<<1, 0>>, <<1, 1>>, <<1, 2>>, <<2, 2>>}
 
 (* message lengths: 0, 1, every residue of the padding multiples 2..8, the 1->2 byte and the
    2->3 byte boundaries of the varint length prefix *)
